@@ -286,7 +286,9 @@ class C01(Check):
                         continue
                     # construction
                     if k == "leaf":
-                        b = BLS(op[1][0]) if len(op) > 2 and op[2] == "int" else BLS(set(op[1]))
+                        vals = op[1]
+                        sel = n % 6  # BitLengthSet(values: Iterable[int] | int): a set, list, tuple, frozenset, generator or iterator
+                        b = BLS(vals[0]) if len(op) > 2 and op[2] == "int" else BLS(set(vals) if sel == 0 else list(vals) + vals[:1] if sel == 1 else tuple(vals) if sel == 2 else frozenset(vals) if sel == 3 else (x for x in vals) if sel == 4 else iter(list(vals)))
                         node = B.Leaf(op[1])
                         dp = 0
                     else:
